@@ -20,6 +20,7 @@
 import TshVerif.Props.C01
 import TshVerif.Props.C05
 import TshVerif.Lemmas.BashHelpers
+import TshVerif.Lemmas.BatchLabels
 namespace Tsh.C16
 open Tsh Tsh.Tr Tsh.Bash
 
@@ -118,5 +119,53 @@ theorem batch_parentheses_balanced (p : Program) (ls : List Batch.BLine) (h : Ba
 theorem batch_no_construct_left_open (p : Program) (u : Unit) (s : Batch.St) (h : evalProgram Batch.conv p {} = .ok (u, s)) :
     s.ifs = [] ∧ s.fors = [] ∧ s.endLabels = [] ∧ s.funcs = [] :=
   C05.construct_stacks_empty_at_end p u s h
+
+/-! ### Batch: labels and jumps of the control constructs
+
+`if`, `else`, loops, `break` and `continue` are all translated into labels (`:_i3`, `:_f2`, `:_e2`) and `goto`s.
+`cmd.exe` resolves a `goto` by scanning the file for the label, so a label defined twice or never defined
+does not fail when the script is loaded; it silently jumps to the wrong place or ends the script. -/
+
+/-- **Batch: no construct label is defined twice.**  The labels `:_iN`, `:_fN`, `:_eN` of a generated script are
+    pairwise different, for every program, however if-chains, loops and functions are nested. -/
+theorem batch_construct_labels_unique (p : Program) (ls : List Batch.BLine) (h : Batch.compile p = .ok ls) :
+    (ls.filterMap Batch.clab).Nodup := by
+  unfold Batch.compile at h
+  split at h
+  · rename_i u s hs
+    simp at h
+    subst h
+    have hi := Batch.program_linv p u s hs
+    have hn := hi.nd
+    obtain ⟨h1, _, h3, _⟩ := batch_no_construct_left_open p u s hs
+    rw [h1, h3] at hn
+    simp only [List.append_nil] at hn
+    exact (Batch.dump_clabels s hi.startPlain).nodup_iff.mpr hn
+  · simp at h
+  · simp at h
+
+/-- **Batch: every construct jump has its label.**  Each `goto :_iN` / `goto :_fN` / `goto :_eN` in a generated
+    script targets a label that some line of the same script defines. -/
+theorem batch_construct_jumps_resolve (p : Program) (ls : List Batch.BLine) (h : Batch.compile p = .ok ls) :
+    ∀ t ∈ ls.filterMap Batch.cgo, t ∈ ls.filterMap Batch.clab := by
+  unfold Batch.compile at h
+  split at h
+  · rename_i u s hs
+    simp at h
+    subst h
+    have hi := Batch.program_linv p u s hs
+    obtain ⟨h1, _, h3, _⟩ := batch_no_construct_left_open p u s hs
+    intro t ht
+    rw [(Batch.dump_cgotos s hi.startPlain).mem_iff] at ht
+    rw [(Batch.dump_clabels s hi.startPlain).mem_iff]
+    rcases hi.gt t ht with h | h | h
+    · exact h
+    · rw [h1] at h; simp at h
+    · rw [h3] at h; simp at h
+  · simp at h
+  · simp at h
+
+/-- what those two lists are in the text of the script -/
+example : (Batch.BLine.clabel "_i3").render = ":_i3" ∧ (Batch.BLine.cgoto "_e2").render = "goto :_e2" := ⟨rfl, rfl⟩
 
 end Tsh.C16
